@@ -123,7 +123,11 @@ fn write_merged_to_disk(
   path_map: HashMap<String, PathBuf>,
 ) -> Result<()> {
   for (id, snaps) in merged {
-    let path = &path_map[&id];
+    // a snapshot file left behind by a test case that no longer exists has no test
+    // directory to be written to: leave it as it is
+    let Some(path) = path_map.get(&id) else {
+      continue;
+    };
     if !path.exists() {
       std::fs::create_dir(path)?;
     }
